@@ -69,6 +69,38 @@ theorem candidates_map (cand : α → α) : ∀ (fuel s : Nat) (us : List α),
     · simp only [h, ↓reduceIte, List.map_append, List.map_id']
       rw [ih]
 
+/-- the inner loop of `bernoulli_neg_exp`: after `n` successful comparisons `u ≤ g/k, …, u ≤ g/(k+n-1)` and one failed
+one, the loop returns the counter `k + n` and leaves the rest of the stream untouched -/
+theorem bernCount_stops (g : α) : ∀ (succ : List α) (k fuel : Nat) (f : α) (rest : List α),
+    succ.length < fuel →
+    (∀ i (h : i < succ.length), succ[i] ≤ g / ((k + i : Nat) : α)) →
+    ¬ f ≤ g / ((k + succ.length : Nat) : α) →
+    bernCount g fuel k (succ ++ f :: rest) = some (k + succ.length, rest) := by
+  intro succ
+  induction succ with
+  | nil =>
+    intro k fuel f rest hf _ hfail
+    cases fuel with
+    | zero => simp at hf
+    | succ fuel =>
+      simp only [List.nil_append, bernCount, List.length_nil, Nat.add_zero] at hfail ⊢
+      simp [hfail]
+  | cons u us ih =>
+    intro k fuel f rest hf hs hfail
+    cases fuel with
+    | zero => simp at hf
+    | succ fuel =>
+      have h0 := hs 0 (by simp)
+      simp only [List.getElem_cons_zero, Nat.add_zero] at h0
+      simp only [List.cons_append, bernCount, h0, ↓reduceIte]
+      have := ih (k + 1) fuel f rest (by simpa using hf)
+        (fun i h => by
+          have := hs (i + 1) (by simpa using h)
+          simpa [Nat.add_assoc, Nat.add_comm 1 i] using this)
+        (by simpa [Nat.add_assoc, Nat.add_comm 1 us.length] using hfail)
+      rw [this]
+      simp [Nat.add_assoc, Nat.add_comm 1 us.length]
+
 end generic
 
 end DPL.Smp
